@@ -39,8 +39,8 @@ ASSUMPTIONS = [
   "is not judged - the reader may agree with either reading; likewise whether a `set` child takes part in the implicit duration of its "
   "parent (both readings of SMIL endsync accepted)",
   "not generated / not judged: precedence among several conflicting nested style children of one region or several initial elements for "
-  "one property; `set` or `br` as a direct child of a sequential container; the `t` metric without ttp:tickRate and frames without "
-  "ttp:frameRate (documents that need them after the removal of a corrupted attribute are skipped); both ittp:aspectRatio and "
+  "one property; `set` or `br` as a direct child of a sequential container; the `t` metric without ttp:tickRate (documents "
+  "that need it after the removal of a corrupted attribute are skipped; frames without ttp:frameRate use the TTML2 default of 30); both ittp:aspectRatio and "
   "ttp:displayAspectRatio; end < begin where the implicit duration of a container or the begin of a seq sibling would depend on it; "
   "dangling region references; regions without xml:id; duplicate xml:id; tts:ruby by referential styling; set with several style "
   "attributes; sub-frames; wallclock / non-media time bases; style reference loops (only 'does not raise' is demanded)",
